@@ -7,9 +7,11 @@
    size is C15_expand_image (any stride) and independence of the previous buffer contents is its `no other bit changes` clause.  Pixels of each
    frame: C01 pipeline.  The tie of the cursor model and of the layout to the code is the correspondence (C13 op sequences; C09 generated APNGs
    compared with the specification for three buffer pre-fills). *)
+From Coq Require Import ZArith.
 From Coq Require Import List Arith Bool Lia.
 Import ListNotations.
 From PngV Require Import Model.Reader Proofs.ReaderProofs.
+From PngV Require Import Model.RowCharge Proofs.RowChargeProofs.
 
 (* n whole-frame calls deliver frames k..k+n-1 completely; two more report end-of-image *)
 Theorem C09_frames_in_order_complete_then_end_of_image :
@@ -45,10 +47,39 @@ Theorem C09_end_of_image_is_stable :
        remaining s = 0 -> next_row s = None -> step im vis s OFrame = (s, REndOfImage, []).
 Proof. exact frame_at_end. Qed.
 
+(* Limits: after any sequence of frames the bytes charged for the shared output row are the largest row so far (budget + reserved is constant) - not a sum over frames or over widening steps (fix 4794b80; the model of Reader::read_until_image_data) *)
+Theorem C09_row_buffer_is_charged_once_at_its_largest_size :
+  forall (buflens : list Z) (s s' : rcstate),
+       run_all s buflens = Some s' ->
+       reserved s' = maxl (reserved s) buflens /\ (budget s' + reserved s')%Z = (budget s + reserved s)%Z.
+Proof. exact charged_is_the_largest_row. Qed.
+
+(* a valid animation is refused with LimitsExceeded for its rows exactly when its largest row does not fit - however many frames it has and however their widths alternate *)
+Theorem C09_frames_fit_iff_the_largest_row_fits :
+  forall (buflens : list Z) (s : rcstate),
+       (0 <= budget s)%Z ->
+       (exists s' : rcstate, run_all s buflens = Some s') <->
+       (maxl (reserved s) buflens <= budget s + reserved s)%Z.
+Proof. exact all_frames_fit_iff_the_largest_row_fits. Qed.
+
+(* frames no wider than what is already reserved change nothing *)
+Theorem C09_frames_within_the_reserved_row_cost_nothing :
+  forall (s : rcstate) (l : list Z),
+       (0 <= budget s)%Z -> Forall (fun b : Z => (b <= reserved s)%Z) l -> run_all s l = Some s.
+Proof. exact frames_no_larger_than_what_is_reserved_cost_nothing. Qed.
+
 Example C09_nonvacuous :
   snd (frames_run (mk_image [2; 1; 3] 3 (fun _ => true)) (reader_init (mk_image [2; 1; 3] 3 (fun _ => true))) 5)
   = [(RFrame 0, [(0,0); (0,1)]); (RFrame 1, [(1,0)]); (RFrame 2, [(2,0); (2,1); (2,2)]); (REndOfImage, []); (REndOfImage, [])].
 Proof. vm_compute. reflexivity. Qed.
+(* non-vacuity: alternating wide and narrow frames; only the step to a larger row is charged *)
+Example C09_row_charge_demo :
+  (rc_charged 8192 [4; 8192; 28; 8192; 4; 16384; 8; 16384] = [0; 0; 0; 0; 0; 8192; 8192; 8192])%Z.
+Proof. exact row_charge_demo. Qed.
+
 Print Assumptions C09_frames_in_order_complete_then_end_of_image.
 Print Assumptions C09_one_frame_call_delivers_one_whole_frame.
 Print Assumptions C09_end_of_image_is_stable.
+Print Assumptions C09_row_buffer_is_charged_once_at_its_largest_size.
+Print Assumptions C09_frames_fit_iff_the_largest_row_fits.
+Print Assumptions C09_frames_within_the_reserved_row_cost_nothing.
